@@ -496,6 +496,19 @@ func derives(v ssa.Value, pred func(ssa.Value) bool, o *deriveOpts) bool {
 				}
 				return false
 			}
+			// a field of a heap object: values stored through the same base value
+			// and field elsewhere in the function (flow-insensitive)
+			if x.X.Referrers() != nil {
+				for _, r := range *x.X.Referrers() {
+					if fa, ok := r.(*ssa.FieldAddr); ok && fa.Field == x.Field && fa.Referrers() != nil {
+						for _, r2 := range *fa.Referrers() {
+							if s, ok := r2.(*ssa.Store); ok && s.Addr == fa && rec(s.Val, d+1) {
+								return true
+							}
+						}
+					}
+				}
+			}
 			return rec(x.X, d+1)
 		case *ssa.IndexAddr:
 			if a, ok := x.X.(*ssa.Alloc); ok {
